@@ -41,8 +41,11 @@ def run(p, script, wrap=None, accuracy=False, enc=None):
     """script: ("update", x) | ("reset",) | ("bad", obj).  accuracy: drive ADWINAccuracy with labels
     whose agreement indicator is x (x must be 0/1); enc(x, t) -> (y_true, y_pred)."""
     det = make(p, accuracy)
+    from .core import Neighbour
+    nb = Neighbour(make(p, accuracy), (lambda o, u: o.update(1, int(u < 0.7))) if accuracy else (lambda o, u: o.update(10.0 * u)), len(script))
     ev = []
     for t, step in enumerate(script):
+        nb.step()
         if step[0] == "update":
             x = step[1]
             try:
